@@ -61,3 +61,16 @@ func ZZC19Utf8Long() {
 	nd.Assert(t[first] < 0x80 || t[first] >= 0xC0, "the shown piece does not begin inside a character")
 	nd.Assert(t[last] < 0xC0, "the shown piece does not end inside a character")
 }
+
+// C19-K8b: the length bound does not depend on the line being valid UTF-8 (a //line directive may point into any file):
+// a 400-byte line made of continuation bytes only, any column.
+func ZZC19InvalidUtf8Long() {
+	line := strings.Repeat("\x85", 400)
+	col := nd.Int("col")
+	nd.Assume(1 <= col)
+	nd.Assume(col <= len(line)+1)
+	t := truncateString(line, MaxLineLength, col)
+	d := calculateDisplayColumn(line, col, MaxLineLength)
+	nd.Assert(len(t) <= MaxLineLength+6, "excerpt length bounded by limit + ellipses, whatever the bytes are")
+	nd.Assert(nd.And(1 <= d, d <= len(t)+1), "display column within excerpt")
+}
